@@ -28,6 +28,7 @@ CONSTANTS Ids,            \* pool of block addresses, 1 .. N
           StrLens,        \* lengths of the strings offered to strdup
           CallocShapes,   \* <<count, element size>> pairs offered to calloc
           SrcOffsets,     \* offsets inside a tracked source block offered to strdup (0 = its base address)
+          CallocWraps,    \* <<count code, element size>> whose mathematical product exceeds SIZE_MAX (see OpCallocRefused)
           HugeSizes,      \* codes of sizes no allocator can satisfy (-1 = SIZE_MAX, -2 = 2^62, -3 = PTRDIFF_MAX + 1; TLC integers are 32 bit)
           Levels,         \* runtime debug levels explored (one per behaviour)
           Obs(_, _, _, _) \* observation hook (op, args, ret, post-state)
@@ -41,8 +42,9 @@ UNTRACKED == -1           \* result: non-NULL pointer the tracker knows nothing 
 VARIABLES level,          \* runtime debug level (constant along a behaviour)
           st,             \* reference: [Ids -> "never" | "live" | "freed"]
           req,            \* reference: last request of every live block
-          table           \* mechanism: Seq([id, size, file, line])
-vars == <<level, st, req, table>>
+          table,          \* mechanism: Seq([id, size, file, line])
+          after           \* "ok" | "refused": whether the PREVIOUS call was a refused request (every action is explored after one)
+vars == <<level, st, req, table, after>>
 
 -------------------------------------------------------------------------------
 (* call sites: file name as character codes, line number *)
@@ -110,11 +112,13 @@ Targets(p, size) == IF size > 0 /\ p = NULLP THEN Avail
 
 -------------------------------------------------------------------------------
 \* sizes: the allocator-side size of every live block (observable at every level, tracked or not)
-View(l, s, q, tab) == [level |-> l, blocks |-> s, sizes |-> [i \in Ids |-> IF s[i] = "live" THEN q[i].size ELSE 0], table |-> tab]
-Pre == View(level, st, req, table)
-Step(op, args, r) ==
-    /\ st' = r.st /\ req' = r.req /\ table' = r.table /\ level' = level
-    /\ Obs(op, args, r.ret, View(level, r.st, r.req, r.table))
+View(l, s, q, tab, a) == [level |-> l, blocks |-> s, sizes |-> [i \in Ids |-> IF s[i] = "live" THEN q[i].size ELSE 0], table |-> tab,
+                          after |-> a]
+Pre == View(level, st, req, table, after)
+StepA(op, args, r, a) ==
+    /\ st' = r.st /\ req' = r.req /\ table' = r.table /\ level' = level /\ after' = a
+    /\ Obs(op, args, r.ret, View(level, r.st, r.req, r.table, a))
+Step(op, args, r) == StepA(op, args, r, "ok")
 
 OpMalloc(t, size, s) ==
     /\ t \in Avail
@@ -133,11 +137,14 @@ OpStrdup(t, n, s, src, off) ==                                          \* S: si
 \* the call yields NULL and nothing else happens - in particular realloc leaves the old block allocated, live and tracked.
 \* Only at runtime level 0: from level 1 on the library's own ASSERT on the NULL result ends the process (C20), outside this model.
 RefusedRes == R(st, req, table, NULLP)
-OpMallocRefused(h, s) == /\ level = 0 /\ Step("malloc", <<0, h, SiteFile(s), SiteLine(s)>>, RefusedRes)
-OpCallocRefused(h, s) == /\ level = 0 /\ Step("calloc", <<0, h, 8, SiteFile(s), SiteLine(s)>>, RefusedRes)
+\* calloc(count, size) whose product does not fit size_t is refused whatever the wrapped product looks like.  Count codes (the
+\* element size is the second component): -11: wraps to exactly one element (>= size), -12: wraps to 0, -13: wraps to three
+\* elements, -14: wraps to less than one element (size 3: 3 * ceil(2^64 / 3) = 2^64 + 2).
+OpMallocRefused(h, s) == /\ level = 0 /\ StepA("malloc", <<0, h, SiteFile(s), SiteLine(s)>>, RefusedRes, "refused")
+OpCallocRefused(h, es, s) == /\ level = 0 /\ StepA("calloc", <<0, h, es, SiteFile(s), SiteLine(s)>>, RefusedRes, "refused")
 OpReallocRefused(p, h, s) ==
     /\ level = 0 /\ p \in {NULLP} \cup Live
-    /\ Step("realloc", <<p, h, 0, SiteFile(s), SiteLine(s)>>, RefusedRes)
+    /\ StepA("realloc", <<p, h, 0, SiteFile(s), SiteLine(s)>>, RefusedRes, "refused")
 OpRealloc(p, size, s, t) ==
     /\ p \in PtrArgs /\ t \in Targets(p, size)
     /\ Step("realloc", <<p, size, t, SiteFile(s), SiteLine(s)>>, ReallocRes(p, size, s, t))
@@ -148,12 +155,13 @@ OpDump ==                                                               \* MALLO
     Step("dump", <<>>, R(st, req, table, [cnt |-> Len(table), total |-> SumSizes(table)]))
 
 Init == /\ level \in Levels
-        /\ st = [i \in Ids |-> "never"] /\ req = [i \in Ids |-> NoReq] /\ table = <<>>
+        /\ st = [i \in Ids |-> "never"] /\ req = [i \in Ids |-> NoReq] /\ table = <<>> /\ after = "ok"
 
 Next == \/ \E t \in Ids, size \in Sizes, s \in Sites : OpMalloc(t, size, s)
         \/ \E t \in Ids, sh \in CallocShapes, s \in Sites : OpCalloc(t, sh, s)
         \/ \E t \in Ids, n \in StrLens, s \in Sites, src \in Ids \cup {0}, off \in SrcOffsets \cup {0} : OpStrdup(t, n, s, src, off)
-        \/ \E h \in HugeSizes, s \in Sites : OpMallocRefused(h, s) \/ OpCallocRefused(h, s)
+        \/ \E h \in HugeSizes, s \in Sites : OpMallocRefused(h, s) \/ OpCallocRefused(h, 8, s)
+        \/ \E w \in CallocWraps, s \in Sites : OpCallocRefused(w[1], w[2], s)
         \/ \E p \in PtrArgs, h \in HugeSizes, s \in Sites : OpReallocRefused(p, h, s)
         \/ \E p \in PtrArgs, size \in Sizes, s \in Sites, t \in Ids \cup {0} : OpRealloc(p, size, s, t)
         \/ \E p \in PtrArgs : OpFree(p)
